@@ -288,7 +288,12 @@ where
 {
     fn into(self) -> LTerm<U, E> {
         match self {
-            Some(x) => LTerm::from(Rc::new(x) as Rc<dyn CompoundObject<U, E>>),
+            Some(x) => match x.as_term() {
+                // A term is its own upcast. Wrapped as an opaque object it would have no
+                // children, and `Some(1)` would unify with `Some(2)`.
+                Some(term) => term.clone(),
+                None => LTerm::from(Rc::new(x) as Rc<dyn CompoundObject<U, E>>),
+            },
             None => LTerm::empty_list(),
         }
     }
